@@ -73,9 +73,9 @@ package mqtt
 //@   loop 1 iter[C01] retry_after_connect: evCount("(*RetryClient).Retry") == ite(connected, 1, 0) && (connected ==> evIndex("(*RetryClient).Connect", 0) < evIndex("(*RetryClient).Retry", 0) && evArg[*RetryClient]("(*RetryClient).Retry", 0, 0) == c.RetryClient)
 //@   loop 1 iter[C13] keepalive_per_connection: evCount("go:(*reconnectClient).Connect$1$3") == ite(connected && c.options.PingInterval > 0, 1, 0) &&
 //@        (evCount("go:(*reconnectClient).Connect$1$3") == 1 ==>
-//@          *closureVar[**BaseClient](evArg[func()]("go:(*reconnectClient).Connect$1$3", 0, 0), "(*reconnectClient).Connect$1$3", 1) == evRet[*BaseClient]("Dialer.DialContext", 0, 0) &&
-//@          *closureVar[**reconnectClient](evArg[func()]("go:(*reconnectClient).Connect$1$3", 0, 0), "(*reconnectClient).Connect$1$3", 2) == c &&
-//@          *closureVar[*context.Context](evArg[func()]("go:(*reconnectClient).Connect$1$3", 0, 0), "(*reconnectClient).Connect$1$3", 0) == evRet[context.Context]("context.WithCancel", 0, 0))
+//@          *closureVarN[**BaseClient](evArg[func()]("go:(*reconnectClient).Connect$1$3", 0, 0), "(*reconnectClient).Connect$1$3", "baseCli") == evRet[*BaseClient]("Dialer.DialContext", 0, 0) &&
+//@          *closureVarN[**reconnectClient](evArg[func()]("go:(*reconnectClient).Connect$1$3", 0, 0), "(*reconnectClient).Connect$1$3", "c") == c &&
+//@          *closureVarN[*context.Context](evArg[func()]("go:(*reconnectClient).Connect$1$3", 0, 0), "(*reconnectClient).Connect$1$3", "ctxKeepAlive") == evRet[context.Context]("context.WithCancel", 0, 0))
 //@   loop 1 iter[C13] redial_after_connection_loss: connected ==> evCount("select") == 2 && evRet[int]("select", 0, 0) == 0 &&
 //@        evArg[<-chan struct{}]("select", 0, 0) == evRet[<-chan struct{}]("(*BaseClient).Done", 0, 0) && evRet[error]("(*BaseClient).Err", 0, 0) != nil &&
 //@        evCount("callback:context.CancelFunc") >= 1
